@@ -95,7 +95,8 @@ def specStep (cx : Ctx) (line : String) (robs : RObs) : Option SExp :=
   let t := cx.td
   -- zero-sized elements: positions are not observable (the harness prints 0 for every position), so result tokens are not
   -- prescribed; outcome, dimensions and (all-zero) data are
-  (fun (e : Option SExp) => if cx.elem = .zst then e.map (fun x => { x with toks := none }) else e) <|
+  if cx.prev.big then none else        -- huge arrays have no data to look at: `specHuge` below
+  (fun (e : Option SExp) => if cx.elem.isZst then e.map (fun x => { x with toks := none }) else e) <|
   match words line with
   | recvTok :: op :: args =>
     if args.getLast?.map isFaultTok = some true then none else
@@ -198,6 +199,77 @@ def specStep (cx : Ctx) (line : String) (robs : RObs) : Option SExp :=
             (parseMOp cx op args (sideStable (sortLe op))).map ofSpec
   | _ => none
 
+/-! ### huge arrays
+
+Arrays with more than 2^17 cells are only built with the zero-sized `unit` kind (up to `usize::MAX` cells).  Their state is printed
+as `big` and the Impl-model's prediction is skipped (it would have to materialise the buffer), but every NUMBER the API reports is
+still prescribed by the Spec layer: sizes of views (`specView`), iterator lengths and which steps yield an item (the ideal
+sequence, here by counting), positions (always 0 for a zero-sized element).  This is what ties the index arithmetic at the top of
+the `usize` range — where the wrap-around hazards live — to the real crate. -/
+
+/-- a word of cursor steps on the ideal sequence of `n` items all printed as `item`, by counting -/
+def cntWord (item : String) (cols : Option Nat) (index : Bool) : Nat → List String → List String → Option (List String × Bool)
+  | _, [], toks => some (toks, false)
+  | n, step :: rest, toks =>
+    let arg : Option Nat := (step.drop 1).toString.toNat?
+    match (step.take 1).toString, arg with
+    | "n", _ | "b", _ => if n > 0 then cntWord item cols index (n - 1) rest (toks ++ [item]) else cntWord item cols index 0 rest (toks ++ ["none"])
+    | "N", some k | "B", some k =>
+      if k < n then cntWord item cols index (n - k - 1) rest (toks ++ [item]) else cntWord item cols index 0 rest (toks ++ ["none"])
+    | "l", _ => cntWord item cols index n rest (toks ++ [toString n])
+    | "h", _ => cntWord item cols index n rest (toks ++ [s!"{n}:{n}"])
+    | "w", _ => match cols with
+      | some c => cntWord item cols index n rest (toks ++ [toString c])
+      | none => none
+    | "i", some k => if !index then none else if k < n then cntWord item cols index n rest (toks ++ [item]) else some (toks, true)
+    | "c", _ => some (toks ++ [toString n], false)
+    | "L", _ => some (toks ++ [if n > 0 then item else "none"], false)
+    | _, _ => none
+
+def specHuge (cx : Ctx) (line : String) : Option SExp :=
+  if !cx.elem.isZst then none else
+  let t : TD Nat := ⟨[], cx.prev.r, cx.prev.c⟩                  -- dimensions only
+  match words line with
+  | recvTok :: op :: args =>
+    if args.getLast?.map isFaultTok = some true then none else
+    match parseSegs recvTok with
+    | none => none
+    | some segs =>
+      if segs.any (fun sg => match sg with | .sliceMut .. | .sliceShared .. => true | _ => false) then none else
+      let root : SRecv := { v := ⟨⟨0, 0⟩, t.numCols, t.numRows, t.numCols⟩, isRoot := true, isMut := true, isView := false }
+      match specResolve t segs root with
+      | none => none
+      | some none => some .panic
+      | some (some rc) =>
+        let v := rc.v
+        let same : SExp := { status := "ok", dims := some (cx.prev.c, cx.prev.r) }
+        let rowTok := if v.numCols = 0 then "0:0" else s!"0:{v.numCols}"
+        let nat (s : String) : Option Nat := s.toNat?
+        let word (w : String) := if w = "-" then [] else w.splitOn ","
+        let fin (r : Option (List String × Bool)) : Option SExp :=
+          r.map fun (toks, mustPanic) => { same with status := if mustPanic then "panic" else "ok", toks := some toks }
+        match op, args with
+        | "size", [] => pure { same with toks := some [toString v.numCols, toString v.numRows] }
+        | "lens", [] =>
+          if v.numCols > 64 then none else
+          pure { same with toks := some [toString v.numRows, toString (v.numCols * v.numRows),
+                                          fmtList ((List.range v.numCols).map fun _ => v.numRows)] }
+        | "get", [c, r] | "getu", [c, r] => do
+          let c ← nat c; let r ← nat r
+          if rc.inRange c r then pure { same with toks := some ["0", "0"] } else (if op = "get" then pure .panic else none)
+        | "row", [r] => do
+          let r ← nat r
+          if v.numCols > 64 then none else
+          if r < v.numRows then pure { same with toks := some [rowTok, fmtList (List.replicate v.numCols 0)] } else pure .panic
+        | "rows", [w] | "rows_mut", [w] => fin (cntWord rowTok (some v.numCols) false v.numRows (word w) [])
+        | "col", [c, w] | "col_mut", [c, w] => do
+          let c ← nat c
+          if ¬ c < v.numCols then pure .panic else fin (cntWord "0" none true v.numRows (word w) [])
+        | "cells", [w] | "cells_mut", [w] | "iter_ref", [w] | "iter_mut", [w] =>
+          fin (cntWord "0" (some v.numCols) false (v.numCols * v.numRows) (word w) [])
+        | _, _ => none
+  | _ => none
+
 def checkSExp (e : SExp) (r : RObs) : List String :=
   let f1 := if e.status = r.status then [] else [s!"status:expected-{e.status}"]
   let f2 := match e.toks with
@@ -250,7 +322,10 @@ def specRootStep (cx : Ctx) (line : String) : Option SExp :=
       if specShapeOk c r ∧ c * r ≤ cx.capLimit then pure (okState c r (List.replicate (c * r) 0)) else pure .panic
     | "init", [c, r, x] => do
       let c ← nat c; let r ← nat r; let x ← nat x
-      if specShapeOk c r ∧ c * r ≤ cx.capLimit then pure (okState c r (List.replicate (c * r) (v x))) else pure .panic
+      if specShapeOk c r ∧ c * r ≤ cx.capLimit then
+        (if c * r > 131072 then pure { status := "ok", dims := some (c, r) }          -- huge (zero-sized elements): dimensions only
+         else pure (okState c r (List.replicate (c * r) (v x))))
+      else pure .panic
     | "from_vec", [c, r, l] | "from_box", [c, r, l] => do
       let c ← nat c; let r ← nat r; let l ← parseList l
       if specShapeOk c r ∧ c * r = l.length then pure (okState c r (l.map v)) else pure .panic
@@ -353,7 +428,7 @@ def specSerde (cx : Ctx) (line : String) (r : RObs) (parse : String → Option J
             let hasC := kvs.any fun kv => kv.1 == "num_cols" && (match kv.2 with | .num n => n == c | _ => false)
             let hasR := kvs.any fun kv => kv.1 == "num_rows" && (match kv.2 with | .num n => n == rr | _ => false)
             let hasD := kvs.any fun kv => kv.1 == "data" && (match kv.2 with
-              | .arr xs => (xs.mapM fun x => match x with | .num n => some n | _ => none) == some (if cx.elem = .zst then l.map (fun _ => 0) else l) || cx.elem = .zst
+              | .arr xs => (xs.mapM fun x => match x with | .num n => some n | _ => none) == some (if cx.elem.isZst then l.map (fun _ => 0) else l) || cx.elem = .zst
               | _ => false)
             some ((if okShape then [] else ["C19:accepted-inconsistent-shape"]) ++
                   (if hasC ∧ hasR ∧ hasD then [] else ["C19:result-not-stated-by-document"]))
